@@ -465,32 +465,33 @@ class Exec(object):
             names = {attr}
             if a is not None and a.reverse: names.add(a.reverse.name)
             return names, a
-        def invalidate_relationship(names):
+        def invalidate_relationship(names, a=None):
             for key in [key for key in F if key[1] in names]: del F[key]
+            if a is not None and a.reverse:
+                # changing a link may cascade-delete the objects on either end of the relationship
+                ents = {a.py_type._root_.__name__, a.entity._root_.__name__}
+                for key in [key for key in F if key[0].split(':')[0] in ents and key[1] not in names]:
+                    if a.cascade_delete or a.reverse.cascade_delete: del F[key]
         if k == 'delete':
-            lbl = op[1]
-            for key in [key for key in F if key[0] == lbl or (F[key][0] == 'val' and F[key][1] == lbl)]: del F[key]
-            for key in [key for key in F if F[key][0] in ('is', 'has', 'hasnot')]: del F[key]
-            for key in [key for key in F if isinstance(F[key][1], str) and ':' in str(F[key][1])]: del F[key]   # cascades may touch any reference
-            return
+            F.clear(); return          # cascades may delete or unlink anything
         if k == 'create':
             lbl = r[1]
             for key in [key for key in F if key[0] == lbl]: del F[key]
             for an, v in op[3].items():
                 names, a = rel_names(lbl, an)
-                if a is not None and a.reverse: invalidate_relationship(names)
+                if a is not None and a.reverse: invalidate_relationship(names, a)
                 F[(lbl, an)] = ('val', v[1] if isinstance(v, (tuple, list)) else v)
             return
         if k in ('set', 'setm'):
             pairs = [(op[2], op[3])] if k == 'set' else list(op[2])
             for an, v in pairs:
                 names, a = rel_names(op[1], an)
-                if a is not None and a.reverse: invalidate_relationship(names)
+                if a is not None and a.reverse: invalidate_relationship(names, a)
                 F[(op[1], an)] = ('val', v[1] if isinstance(v, (tuple, list)) else v)
             return
         if k in ('add', 'remove', 'clear', 'assign'):
             names, a = rel_names(op[1], op[2])
-            invalidate_relationship(names)
+            invalidate_relationship(names, a)
             if k == 'add': F[(op[1], op[2])] = ('has', op[3])
             elif k == 'remove': F[(op[1], op[2])] = ('hasnot', op[3])
             elif k == 'clear': F[(op[1], op[2])] = ('is', [])
